@@ -306,3 +306,16 @@ Proof.
   cbn [msgaddr_wf anycast_ok]. repeat split; try (vm_compute; congruence).
   apply Forall_forall. intros x Hx. apply repeat_spec in Hx. subst x. reflexivity.
 Qed.
+
+(** Non-canonical spellings of a cell document: with "last byte not full" (odd d2) the last data
+    byte must carry the completion tag in one of its seven low positions.  The overlong form
+    (a byte-aligned bit string followed by 0x80) and the form without any tag (0x00) are rejected
+    by the parser model for every prefix, so such a JSON cell document is malformed, not a second
+    spelling of a shorter cell. *)
+From Tongo Require Import Model.BocParse Proofs.C20SpellP.
+Theorem C20_overlong_completion_rejected :
+  forall data, top_upped_bits (data ++ [128%N]) false = Err EParse.
+Proof. exact top_upped_overlong_rejected. Qed.
+Theorem C20_missing_completion_rejected :
+  forall data, top_upped_bits (data ++ [0%N]) false = Err EParse.
+Proof. exact top_upped_untagged_rejected. Qed.
